@@ -1295,7 +1295,13 @@ func (h *hist) gatePhase() {
 			m = h.sp.maxConc() + 1 + r.IntN(3)
 		}
 		for i := 0; i < m; i++ {
-			if err := h.commitOne(h.genTx(r, 60+round)); err != nil {
+			es := h.genTx(r, 60+round)
+			// an empty first value has offset 0 in its value log: the forward walk then lowers that log's tombstone
+			// to 0 and nothing is deleted at all; in the later rounds the overtaking txs start with a real value
+			for round >= 3 && len(es[0].Value) == 0 {
+				es = h.genTx(r, 60+round)
+			}
+			if err := h.commitOne(es); err != nil {
 				h.c.Note(fmt.Sprintf("[%s] commit while a writer is gated: %v", h.sp.Name, err))
 			}
 		}
